@@ -277,3 +277,18 @@ m('c20-r3-rc-field', 'C20', 'C20-R3', 'OsuGradualDifficulty', (
     ('src/osu/difficulty/gradual.rs', "            _not_clonable: NotClonable,\n        })", "            _not_clonable: NotClonable(std::rc::Rc::new(())),\n        })"))
 
 MUTANTS = M
+
+m('c15-r7-unbounded-n', 'C15', 'C15-R7', 'CatchGradualDifficulty', (
+    'src/catch/difficulty/gradual.rs', "        if n >= self.len() {\n            while self.next().is_some() {}\n\n            return None;\n        }\n\n        let skip_iter",
+    "        let target = self.idx + n;\n\n        if target >= self.count.len() {\n            while self.next().is_some() {}\n\n            return None;\n        }\n\n        let skip_iter"))
+
+m('c16-r3-direct-truncate', 'C16', 'C16-R3', 'mania:strains:+<direct mutation of Beatmap.hit_objects>', (
+    'src/mania/strains.rs', "    if difficulty.get_mods().ho() {\n        convert::apply_hold_off_to_beatmap(map.to_mut());",
+    "    if difficulty.get_mods().ho() {\n        let take = difficulty.get_passed_objects();\n        let m = map.to_mut();\n        if take < m.hit_objects.len() {\n            m.hit_objects.truncate(take);\n        }\n        convert::apply_hold_off_to_beatmap(map.to_mut());"))
+
+m('c17-r5-unguarded-scale', 'C17', 'C17-R5', 'build:hp', (
+    'src/model/beatmap/attributes.rs', "        if !self.hp.with_mods() {\n            hp *= mods.od_ar_hp_multiplier() as f32;\n        }", "        hp *= mods.od_ar_hp_multiplier() as f32;"))
+
+m('c08-r2-helper-calls-mods-fn', 'C08', 'C08-R2', 'attr-fn:od', (
+    'src/model/beatmap/attributes.rs', "            GameMode::Catch | GameMode::Mania => f64::from(self.od.value(mods, GameMods::od)),",
+    "            GameMode::Catch | GameMode::Mania => {\n                fn raw(m: &GameMods, f: impl Fn(&GameMods) -> Option<f64>) -> f64 {\n                    f(m).unwrap_or(5.0)\n                }\n\n                raw(mods, GameMods::od)\n            }"))
